@@ -641,6 +641,10 @@ pub struct GParams {
     /// one node) instead of the chains / cycles / fans
     #[serde(default)]
     pub hubs: usize,
+    /// non-empty: the prefixed family - every small shape (n, max_l) placed
+    /// behind a corridor / a fan of m already-discovered nodes, for every m listed
+    #[serde(default)]
+    pub prefix: Vec<usize>,
 }
 
 /// The large structured families: (family name, connect history).
@@ -723,14 +727,126 @@ pub fn hub_graphs(dmax: usize) -> Vec<(String, usize, Vec<(K, K)>)> {
     out
 }
 
+/// The prefixed family: every small shape `sh` (on `k` nodes) placed behind
+/// `m` nodes that a search from node 0 discovers first - a corridor
+/// 0 -> 1 -> .. -> m-1 -> shape, or a fan 0 -> {1..m-1 dead ends}, 0 -> shape -
+/// optionally closed by an edge from one shape node back to node 0. The
+/// structure that decides the outcome stays exhaustively enumerated while the
+/// search's own bookkeeping (visited set, queue, stack, heap) has crossed any
+/// size threshold up to m. Returns (name, nodes, connects, indices of the
+/// shape's own arcs, first shape node).
+pub fn prefixed_graphs(ms: &[usize], k: usize, shapes: &[Vec<(K, K)>]) -> Vec<(String, usize, Vec<(K, K)>, Vec<usize>, usize)> {
+    let mut out = Vec::new();
+    for &m in ms {
+        for (si, sh) in shapes.iter().enumerate() {
+            if sh.is_empty() {
+                continue;
+            }
+            for fan in [false, true] {
+                for back in 0..=k {
+                    // back == 0: no closing edge; otherwise from shape node back-1 to node 0
+                    let mut c: Vec<(K, K)> = Vec::new();
+                    if fan {
+                        for i in 1..m {
+                            c.push((0, i as K));
+                        }
+                        c.push((0, m as K));
+                    } else {
+                        for i in 0..m {
+                            c.push((i as K, (i + 1) as K));
+                        }
+                    }
+                    let first = c.len();
+                    for (u, v) in sh {
+                        c.push(((m + *u as usize) as K, (m + *v as usize) as K));
+                    }
+                    let own: Vec<usize> = (first..c.len()).collect();
+                    if back > 0 {
+                        c.push(((m + back - 1) as K, 0));
+                    }
+                    out.push((format!("{}{}+shape{}{}", if fan { "fan" } else { "corridor" }, m, si, if back > 0 { format!("+back{}", back - 1) } else { String::new() }), m + k, c, own, m));
+                }
+            }
+        }
+    }
+    out
+}
+
+pub fn prefixed_sweep<F: Fl>(job: &Job, p: &GParams, out: &mut Out) {
+    let prop = job.property.as_str();
+    let small = shapes::<F>(p.n, p.max_l);
+    let graphs = prefixed_graphs(&p.prefix, p.n, &small);
+    out.stats.max("prefixed_graphs_total", graphs.len() as u64);
+    let mut dfs = DfsOrders::default();
+    for (gi, (name, n, conns, own, first)) in graphs.iter().enumerate() {
+        if gi % job.nshards != job.shard {
+            continue;
+        }
+        // the exact DFS-order oracle explodes on fans; they are for the searches only
+        if prop == "C10" && name.starts_with("fan") && *first > 7 {
+            continue;
+        }
+        out.stats.inc("shapes");
+        out.stats.max("max_nodes", *n as u64);
+        crate::progress::set_case(|| json!({"kind":"gsweep-large","flavour":F::NAME,"name":name,"n":n,"conns":conns}).to_string());
+        let val_sets: Vec<Vec<i8>> = if matches!(prop, "C06" | "C07" | "C09") {
+            vec![(0..*n).map(|k| (k % 100) as i8).collect(), (0..*n).map(|k| ((*n - k) % 100) as i8).collect(), vec![0; *n]]
+        } else {
+            vec![(0..*n).map(|k| (k % 100) as i8).collect()]
+        };
+        let conns_t: Vec<(K, K)> = conns.iter().map(|(u, v)| (*v, *u)).collect();
+        let targets: Vec<usize> = (*first..*n).collect();
+        for (vi, vals) in val_sets.iter().enumerate() {
+            let m = GModel::new(*n, F::DIRECTED, conns, vals);
+            let w = build_world::<F>(vals, conns);
+            let wt = if prop == "C08" { Some(build_world::<F>(vals, &conns_t)) } else { None };
+            for root in [0 as K, *first as K] {
+                for (cfg, reject, mode) in configs_picked(prop, F::DIRECTED, *n, root, conns, own, &targets) {
+                    if vi > 0 && !matches!(cfg.kind, Kind::PfsMin | Kind::PfsMax) {
+                        continue;
+                    }
+                    crate::progress::tick();
+                    let c = GCase { n: *n, conns: conns.clone(), vals: vals.clone(), root, cfg, reject, mode: mode.to_string(), churn: churn() };
+                    out.stats.inc("evaluations");
+                    match check_case::<F>(prop, &w, &m, &c, &mut dfs, wt.as_ref()) {
+                        Ok(_) => {
+                            out.stats.inc("nontrivial");
+                        }
+                        Err((class, what)) => out.report(Violation {
+                            property: prop.into(),
+                            engine: "gsweep".into(),
+                            flavour: F::NAME.into(),
+                            class,
+                            what,
+                            case: json!({"kind":"gsweep","flavour":F::NAME,"case":c,"program":c.program(F::NAME)}),
+                            order: (conns.len() * 1000 + c.reject.len() * 10 + n) as u64,
+                        }),
+                    }
+                }
+            }
+        }
+    }
+}
+
 /// Configurations for the large graphs: the filter subsets are replaced by a
 /// few single-arc rejections (the extra edge, the first and a middle chain edge).
 fn configs_large(prop: &str, directed: bool, n: usize, root: K, conns: &[(K, K)]) -> Vec<(Cfg, Vec<Arc3>, &'static str)> {
     let l = conns.len();
+    let picks: Vec<usize> = {
+        let mut p = vec![0usize, n / 2, n - 1];
+        p.sort();
+        p.dedup();
+        p
+    };
+    configs_picked(prop, directed, n, root, conns, &[l - 1, 0, l / 2], &picks)
+}
+
+/// As `configs_large` with the arcs to reject singly and the targets given.
+fn configs_picked(prop: &str, directed: bool, n: usize, root: K, conns: &[(K, K)], reject_idx: &[usize], target_picks: &[usize]) -> Vec<(Cfg, Vec<Arc3>, &'static str)> {
     let arc = |i: usize| (conns[i].0, conns[i].1, (i + 1) as E);
     let rev = |a: Arc3| (a.1, a.0, a.2);
     let mut rejects: Vec<Vec<Arc3>> = vec![vec![]];
-    for i in [l - 1, 0, l / 2] {
+    for &i in reject_idx {
         let a = arc(i);
         rejects.push(vec![a]);
         rejects.push(vec![rev(a)]);
@@ -739,12 +855,7 @@ fn configs_large(prop: &str, directed: bool, n: usize, root: K, conns: &[(K, K)]
         }
     }
     rejects.dedup();
-    let picks: Vec<K> = {
-        let mut p = vec![0usize, n / 2, n - 1];
-        p.sort();
-        p.dedup();
-        p.into_iter().map(|x| x as K).collect()
-    };
+    let picks: Vec<K> = target_picks.iter().map(|x| *x as K).collect();
     // reuse the small-shape configuration generator with an empty arc list
     // (no subsets), then attach the reject sets to the filter configurations
     let base = configs(prop, directed, n, root, &[], &[]);
@@ -1191,6 +1302,9 @@ pub fn sweep<F: Fl>(job: &Job, out: &mut Out) {
     let p: GParams = serde_json::from_value(job.params.clone()).expect("gsweep params");
     set_churn(p.churn);
     CHURN_FELL_BACK.with(|c| c.set(0));
+    if !p.prefix.is_empty() {
+        return prefixed_sweep::<F>(job, &p, out);
+    }
     if p.large > 0 || p.hubs > 0 {
         return large_sweep::<F>(job, &p, out);
     }
